@@ -925,6 +925,21 @@ def run(ck, ctx):
                   "distances to the decay point", False, d_main, fn,
                   f"{len(d_orb)} distance(s) at the reference orbit, {len(d_det)} at the detector altitude")
             return
+        # the geometry inside the kernel (viewing angle, distances, validity of the steps) is the one of the reference
+        # orbit the final rescaling starts from: one altitude for both, else the inverse-square correction is applied to
+        # a density that is already the detector's
+        try:
+            zk = _strip_cast(I.res(I.load_attr(K.obj, "zmax", K.st, None, None), K.st))
+        except Exception:       # noqa: BLE001
+            zk = None
+        if zk is None or zk.op == "State":
+            ck.note("CphotAng: the altitude the kernel's viewing geometry is built for was not identified - its agreement "
+                    "with the reference orbit of the rescaling is not decided")
+        else:
+            zo = _strip_cast(third(d_orb[0]))
+            ck.ob("R06.11", "the kernel's viewing geometry is built for the reference orbit the density is rescaled from "
+                  "(one altitude for both)", g.vn(zk) == g.vn(zo), zk, "CphotAng.__init__",
+                  f"{g.show(zk, 2)} vs {g.show(zo, 2)}", construct="CphotAng.__init__: altitude of the viewing geometry")
         atoms = {"S": S, "Dm": subs[0], "Y": Y, "T": T, "c": c, "do": I.res(d_orb[0][3], K.st),
                  "dd": I.res(d_det[0][3], K.st)}
         cnt = [x for x in walk([a_main]) if is_ext_call(x, "numpy.count_nonzero") or
